@@ -18,7 +18,7 @@ def run(check: Check) -> None:
     )
     check.info["rule"] = "case = (harness, shard); each path of an enumerating harness is one concrete input string"
     check.bounds.update({"tokenizer_string_length": 3 if thorough else 2, "stream_length": "2 over 33 symbols + 3 over a 16-symbol cut (quick); 3 over 20 / 33 and 4 over 20 (thorough)",
-                         "flag_streams": "3 tokens over 7 symbols x 8 flag subsets (quick) / 4 tokens over 10 (thorough)", "edits": "1 (quick) / 2 replacements (thorough)", "seeds": "10 (quick) / 20 (thorough)"})
+                         "flag_streams": "3 tokens over 7 symbols x 8 flag subsets (quick) / 4 tokens over 8 (thorough)", "edits": "1 (quick) / 2 replacements (thorough)", "seeds": "10 (quick) / 20 (thorough)"})
     check.out_of_scope += ["strings outside the length / edit-distance bounds", "termination is 'terminates within the per-path timeout on every explored path'",
                            "full-charset claims beyond the tokenizer (ast.parse realises the string)"]
     # native cross-validation over the same spaces
@@ -94,7 +94,7 @@ def run(check: Check) -> None:
         "err1": [None],
         "err2": list(range(33)),
         "err3": [{"SHARD": k, "M": (20 if thorough else 16)} for k in range(20 if thorough else 16)],
-        "flags3": [{"SHARD": f, "N": (10 if thorough else 1), "M": (10 if thorough else 7)} for f in range(8)],
+        "flags3": [{"SHARD": f, "N": (8 if thorough else 1), "M": (8 if thorough else 7)} for f in range(8)],
         "edit1": list(range(20 if thorough else 10)),
         "pyfrag": list(range(25)) if thorough else [0, 2, 3, 4, 12, 17, 18, 24],
         "flag_switch": list(range(8)) if thorough else [0, 3, 7],
